@@ -595,12 +595,12 @@ def g_moderate(F, rng, tier):
         add(1399895427754828214, -319, True, "G7:F1")
     else:
         add(1037040465037118063, 20, True, "G7:F1")
-    for _ in range(400 if q else 20000):
+    for _ in range(400 if q else 10000):
         w = rng.getrandbits(rng.choice([64, 64, 63, 60, 54, 30]))
         qq = rng.randrange(F.p10_lo - 3, F.p10_hi + 4)
         add(w, qq, rng.random() < 0.5, "G3:random")
     # exact ties with <= 19 digits: every q of the tie window (+-2), both parities of the lower neighbour
-    for (w, qq) in short_ties(F, rng, 2 if q else 25):
+    for (w, qq) in short_ties(F, rng, 2 if q else 8):
         add(w, qq, False, "G3:window")
         add(w + 1, qq, False, "G3:window+1")
         add(w - 1, qq, False, "G3:window-1")
